@@ -17,6 +17,10 @@ pub mod rx;
 
 #[cfg(all(kani, feature = "c01"))]
 pub mod c01;
+#[cfg(all(kani, feature = "c02"))]
+pub mod c02;
+#[cfg(all(kani, feature = "c04"))]
+pub mod c04;
 #[cfg(all(kani, feature = "c05"))]
 pub mod c05;
 #[cfg(all(kani, feature = "c06"))]
@@ -29,6 +33,8 @@ pub mod c10;
 pub mod c11;
 #[cfg(all(kani, feature = "c15"))]
 pub mod c15;
+#[cfg(all(kani, feature = "c16"))]
+pub mod c16;
 #[cfg(all(kani, feature = "c17"))]
 pub mod c17;
 #[cfg(all(kani, feature = "c18"))]
